@@ -138,7 +138,7 @@ M("c10-ref-number", "C10", I, "                interval_references = interval_st
 M("c10-ppi-last-full", "C10", I, "                interval_idc = np.split(sorted_idc[remainder:], n_full_chunks)\n                interval_idc.insert(0, sorted_idc[:remainder])", "                interval_idc = np.split(sorted_idc[remainder:], n_full_chunks)\n                interval_idc.append(sorted_idc[:remainder])", rules=["C10.ppi"])
 M("c10-ppi-mid", "C10", I, "upper_boundary = (np.max(interval) + np.min(next_interval)) / 2", "upper_boundary = np.max(interval)", rules=["C10.ppi"])
 M("c10-valueerror", ["C10", "C18"], I, '            elif self.reference.lower() == "left":\n                interval_references -= 0.5 * width\n            else:\n                raise ValueError(', '            elif self.reference.lower() == "left":\n                interval_references -= 0.5 * width\n            elif False:\n                raise ValueError(', rules={"C10": ["C10.refs"], "C18": ["C18.shared"]})
-M("c10-twin-half", "C10", I, "            interval_references - 0.5 * width, interval_references[-1] + 0.5 * width", "            interval_references - width / 2, interval_references[-1] + width / 2", expect="pass")
+# (c10-twin-half dropped: the edges are no longer derived from the centres)
 M("c10-twin-comp-bounds", "C10", I, "        interval_boundaries = list(zip(interval_edges[:-1], interval_edges[1:]))\n\n        if isinstance(self.reference, str):\n            if self.reference.lower() == \"center\":\n                pass  # interval_references are",
   "        interval_boundaries = [(lo, hi) for lo, hi in zip(interval_edges[:-1], interval_edges[1:])]\n\n        if isinstance(self.reference, str):\n            if self.reference.lower() == \"center\":\n                pass  # interval_references are", expect="pass")
 M("c13-unnormalised", "C13", D, "        w = w / np.sum(w)\n", "        w = w * 1\n", rules=["C13.norm"], what="original defect D5")
